@@ -47,8 +47,8 @@ RULE = ('phases: BFS over population histories, states de-duplicated on (species
         'deviation changes the expected file; thermo/CTI: default model + all single and pair '
         '(thorough: triple) coordinate deviations, each written by both writers, non-trivial = '
         'differs from the default in a coordinate that changes the file; forms: base model + every single '
-        'deviation of a representation coordinate + pairs inside one family and with every request '
-        'coordinate (thorough: all pairs + triples inside two families), each written by both writers; '
+        'deviation of a representation coordinate + pairs inside one family and with the request '
+        'coordinates units / T,P typing / units argument (thorough: all pairs + triples inside two families), each written by both writers; '
         'writes: every operation sequence up to the depth from three (alphabet 1) / two (alphabet 2) '
         'initial id assignments')
 ASSUMPTIONS = [
@@ -1697,6 +1697,7 @@ FORM_COORDS = dict(cls=['nasa9', 'nasa', 'shomate'], sp_form=SP_FORMS, n9=list(N
                    units=['ex', 'si', 'default'], ids=['auto', 'desc'])
 FORM_FAMILY = dict(cls='S', sp_form='S', n9='S', Ea='R', A='R', stick='R', beta='R', li_form='L', bep_form='L',
                    bep_names='L', ph_form='L', li_arg='L', TP_form='W', units_arg='W', prior='W', units='W', ids='W')
+FORM_CROSS = ('TP_form', 'units', 'units_arg')     # request coordinates paired with every coordinate in the quick tier
 FORM_ORDER = sorted(FORM_COORDS)
 FORM_TAGGED = ['sp_form', 'n9', 'Ea', 'A', 'stick', 'beta', 'li_form', 'bep_form', 'bep_names', 'ph_form', 'li_arg',
                'TP_form', 'units_arg']
@@ -1706,14 +1707,14 @@ PLANNED_TAGS += ['prior:other model written first', 'prior:same model written be
 
 def _form_deltas(tier):
     """Base + every single deviation + pairs.  quick: pairs inside one family (S species, R rate inputs,
-    L interactions / BEPs / phases, W request) and every coordinate with every request coordinate;
-    thorough: all pairs, and all triples inside R and inside S + units."""
+    L interactions / BEPs / phases, W request / history) and every coordinate with the request coordinates
+    units, T/P typing and units argument; thorough: all pairs, and all triples inside R and inside S + units."""
     out = [{}]
     for k in FORM_ORDER:
         out += [{k: v} for v in FORM_COORDS[k][1:]]
     for a, b in itertools.combinations(FORM_ORDER, 2):
         fa, fb = FORM_FAMILY[a], FORM_FAMILY[b]
-        if tier == 'quick' and not (fa == fb or 'W' in (fa, fb)):
+        if tier == 'quick' and not (fa == fb or a in FORM_CROSS or b in FORM_CROSS):
             continue
         for va in FORM_COORDS[a][1:]:
             for vb in FORM_COORDS[b][1:]:
@@ -2377,7 +2378,7 @@ def bounds(tier):
                     species=len(ORDER_T) + len(ORDER_S), reactions='8-11', interactions='0-3', beps='0-2'),
         histories=dict(ops=HIST_OPS, inits=HIST_INITS, ops2=HIST_OPS2, inits2=HIST_INITS2, depth=3 if q else 4),
         forms=dict(base=FORM_BASE, coordinates={k: FORM_COORDS[k] for k in FORM_ORDER}, families=FORM_FAMILY,
-                   deviation_level=('singles + pairs inside a family and with every request coordinate' if q else
+                   deviation_level=('singles + pairs inside a family and with units / TP_form / units_arg' if q else
                                     'singles + all pairs + triples inside R and inside S+units'),
                    configurations=len(_form_deltas(tier)), writers=['write_thermo_yaml', 'write_cti']))
 
